@@ -439,6 +439,7 @@ def models_v1_grace(v, sc, binary):
     simple_model(v, sc, "MC_SimpleV1_twinC07", expect="inv")
     simple_model(v, sc, "MC_SimpleV2", module="SimpleV2")
     simple_model(v, sc, "MC_SimpleV2_twin", expect="inv", module="SimpleV2")
+    v2_refinement(v, sc, binary)
     v1_model(v, sc, binary, mk1("v1gracelive", [2, 1], {2: 1, 1: 2}, 2, "rate", 2, 1, 1, graceful=True), spec="GraceSpec", properties=["C07_Live"])
 
 
@@ -940,6 +941,20 @@ def v1_refinement(v, sc, binary):
     if not rt.prop_violated:
         raise Inconclusive("vacuity twin of the refinement check: an abstraction with H-1 handlers must not be implemented")
     v.cov.setdefault("regression_twins", []).append("%s: refinement into InnerAbs with H-1 violated as expected" % twin)
+
+
+def v2_refinement(v, sc, binary):
+    """PrioV2 (with and without a divider fault) implements InnerAbs with grace = TRUE, the abstraction SimpleV2.tla is built on"""
+    for cfg in (mk("p2ref", [2, 1], 3, "rate", 1, 2), mk("p2reff", [2, 1], 3, "rate", 1, 2, faults=1)):
+        sub = os.path.join(sc, "m-" + cfg["name"])
+        os.makedirs(sub, exist_ok=True)
+        stage_specs(sub)
+        cfgp, rows = pm.div_table(binary, cfg, sub)
+        name = pm.write_mc(sub, cfg, rows, module="PrioV2_Refines", invariants=["AbsCapacity"], properties=["AbsSpec"])
+        r = tlc(sub, name, cfg=name + ".cfg", workers=8, timeout=1500)
+        if not r.ok:
+            raise Inconclusive("TLC: refinement PrioV2 => InnerAbs fails (a lead, not a verdict) or TLC failed\n%s" % r.out[-2500:])
+        v.add_tlc(r, "%s: PrioV2 => InnerAbs (refinement mapping; the abstraction SimpleV2 uses for the inner discipline)" % name)
 
 
 def models_C16(v, sc, binary):
